@@ -118,6 +118,13 @@ CHECKS = {
              "arbitrary coordinates over tables of real SSIcov / pLSCF / FDD runs; after every action the selection is compared with a list-of-pairs model; "
              "mpe_from_plot is executed for real and (Fn, order_out) compared with the picked pairs.",
         ref="3/C16"),
+    "C17": dict(
+        technique="runtime monitoring: derivative monitor (reported variance vs squared central finite differences of the real identification at two step sizes) + definitional postcondition on build_hank's factor",
+        text="Exploration: SSI_fast+SSI_poles with calc_unc are evaluated on well-conditioned Hankel matrices with synthetic covariance factors (1..20 columns) and with "
+             "the factor build_hank derives from data; Fn_cov at several orders is compared with the sum of squared directional derivatives obtained by central "
+             "differences of the same functions (two step sizes must agree); the data factor is compared with vec_F(H_k - H)/sqrt(nb(nb-1)); SSIcov(calc_unc) is "
+             "checked to feed exactly that factor through the same propagation.",
+        ref="3/C17"),
 }
 
 PENDING_REASON = "check not built yet in this session (work in progress; the design in DESIGN.md section 3 applies)"
